@@ -25,7 +25,7 @@ CHECK = SessionCheck(
     prop='C08',
     profile=profile,
     monitors=lambda: [Registry(), MatchMonitor(('C08',))],
-    tiers={'quick': 2000, 'thorough': 200_000},
+    tiers={'quick': 2000, 'thorough': 50_000},
     nontrivial=lambda r: r['counters'].get('minutes_with_2+_fills', 0) > 0,
     rule=('one seed -> one step-simulator session on a small price lattice (5-9 levels for most runs) with ladders and '
           'SL/TP rows 1-4 ticks away, reaction orders placed by hooks; a PathMatcher (polyline O-L-H-C / O-H-L-C from '
